@@ -309,6 +309,34 @@ def activeCount (S : Nat) (Γ : List Vec) (x : Vec) : Nat :=
   let e := env S Γ x
   (Γ.filter (fun α => dot S x α == e)).length
 
+/-- |det| of an n×n rational matrix relative to the product of its row scales (max |entry|): a crude exact conditioning measure -/
+def relDet (n : Nat) (rows : Array (Array Rat)) : Rat := Id.run do
+  let mut a := rows
+  let mut det : Rat := 1
+  let mut scale : Rat := 1
+  for r in [0:n] do
+    let row := a.getD r #[]
+    let mx := (List.range n).foldl (fun acc j => if acc < absQ (row.getD j 0) then absQ (row.getD j 0) else acc) 0
+    scale := scale * (if mx == 0 then 1 else mx)
+  for c in [0:n] do
+    let mut piv : Option Nat := none
+    for r in [c:n] do
+      if piv.isNone && (a.getD r #[]).getD c 0 != 0 then piv := some r
+    match piv with
+    | none => return 0
+    | some p =>
+      let rp := a.getD p #[]
+      let rc := a.getD c #[]
+      a := (a.setIfInBounds p rc).setIfInBounds c rp
+      let pv := rp.getD c 0
+      det := det * pv
+      for r in [c+1:n] do
+        let rr := a.getD r #[]
+        let f := rr.getD c 0 / pv
+        if f != 0 then
+          a := a.setIfInBounds r ((List.range n).map (fun j => rr.getD j 0 - f * rp.getD j 0)).toArray
+  return absQ det / scale
+
 /-- `verts S n planes | k vertices`: the contract of `findVerticesNaive` that LinearSupport relies on — every vertex of the partition
     induced by the planes (interior, or on an edge/face of the simplex; corners excluded) is among the returned points.  Only *simple*
     vertices are demanded (exactly S − #zero-coordinates planes active, no coincidence), so degenerate systems cannot raise an alarm. -/
@@ -327,7 +355,16 @@ def verts : P String := do
     let zeros := ((List.range S).filter (fun s => x.get s == 0)).length
     -- "We do NOT return simplex corners": the code drops points whose largest coordinate is within 1e-6 of 1; stay clear of that band
     let nearCorner := (List.range S).any (fun s => decide (x.get s > 1 - 1 / 100000))
-    zeros < S - 1 && activeCount S planes x + zeros == S && !nearCorner)
+    -- conditioning: the S equations that define x (active planes pairwise equal, zero coordinates, sum = 1) must be independent with a
+    -- margin; planes that are dependent up to rounding (1e-16) define no vertex a floating-point enumeration can be asked to find
+    let e := env S planes x
+    let act := planes.filter (fun α => dot S x α == e)
+    let a0 := act.headD #[]
+    let rowsEq := (act.drop 1).map (fun aj => ((List.range S).map (fun s => a0.get s - aj.get s)).toArray)
+    let rowsD := ((List.range S).filter (fun s => x.get s == 0)).map (fun d => ((List.range S).map (fun s => if s == d then (1 : Rat) else 0)).toArray)
+    let rowSum := ((List.range S).map (fun _ => (1 : Rat))).toArray
+    let wellCond := decide (relDet S (rowsEq ++ rowsD ++ [rowSum]).toArray ≥ 1 / 1000000)
+    zeros < S - 1 && activeCount S planes x + zeros == S && !nearCorner && wellCond)
   let tol : Rat := 1 / 1000000
   let found (x : Vec) : Bool := vs.any (fun (p : Vec × Rat) => allLt S (fun s => decide (absQ (p.1.get s - x.get s) ≤ tol)))
   let v : Verdict := { tag := s!"verts S{S}" ++ (if simple.isEmpty then " trivial" else "") }
